@@ -70,3 +70,49 @@ static inline int run_cases(const char* path, const std::function<Wire(const std
     }
     return 0;
 }
+
+// ---- float wire: "<comp> i1 i2 ... | x1 x2 ..."  ->  "o1 o2 ... | y1 y2 ..." (doubles as C99 hex, exact) ----
+struct FReader {
+    const std::vector<double>& w; size_t p;
+    FReader(const std::vector<double>& w_): w(w_), p(0) {}
+    double x() { if (p>=w.size()) throw Reader::Malformed(); return w[p++]; }
+    bool done() const { return p==w.size(); }
+};
+struct FWire { Wire z; std::vector<double> f; };
+
+static inline void emit_f(const FWire& out) {
+    std::string s;
+    for (size_t k=0;k<out.z.size();++k) { if (k) s += ' '; s += std::to_string(out.z[k]); }
+    s += " |";
+    char b[64];
+    for (double d : out.f) { snprintf(b,sizeof b," %a",d); s += b; }
+    s += '\n';
+    fwrite(s.data(),1,s.size(),stdout);
+}
+
+static inline int run_cases_f(const char* path, const std::function<FWire(const std::string&,Reader&,FReader&)>& dispatch) {
+    std::ifstream in(path);
+    if (!in) { fprintf(stderr,"cannot open %s\n",path); return 2; }
+    std::string line;
+    while (std::getline(in,line)) {
+        std::istringstream ls(line);
+        std::string comp; ls >> comp;
+        Wire w; std::vector<double> f; std::string tok; bool fl=false;
+        while (ls >> tok) {
+            if (tok=="|") { fl=true; continue; }
+            if (fl) f.push_back(strtod(tok.c_str(),nullptr)); else w.push_back(atoll(tok.c_str()));
+        }
+        FWire out;
+        try {
+            Silence s;
+            Reader r(w); FReader fr(f);
+            out = dispatch(comp,r,fr);
+        } catch (Reader::Malformed&) { out = FWire{Wire{-1},{}}; }
+          catch (std::invalid_argument&) { out = FWire{Wire{ST_ASSERT},{}}; }
+          catch (std::exception&) { out = FWire{Wire{ST_OTHER},{}}; }
+          catch (...) { out = FWire{Wire{ST_OTHER},{}}; }
+        emit_f(out);
+        fflush(stdout);
+    }
+    return 0;
+}
